@@ -4,7 +4,9 @@ package c11
 import (
 	"context"
 	"fmt"
+	"sync"
 	"testing"
+	"time"
 
 	"github.com/gebn/bmc"
 	"github.com/gebn/bmc/pkg/ipmi"
@@ -15,6 +17,7 @@ import (
 	"verif/harness/memnet"
 	"verif/harness/ref"
 	"verif/harness/simbmc"
+	"verif/harness/udpnet"
 )
 
 var ev *evid.E
@@ -429,8 +432,126 @@ func TestHighLevelMethods(t *testing.T) {
 	ev.Label("high-level-methods-complete")
 }
 
+// TestUDPStaleBehindReply: over the real UDP transport, the BMC's reply to command
+// B is followed at once by a duplicate of its earlier reply to command A, so the
+// stale datagram is already queued when B's reply is accepted. B's result must be
+// the BMC's value for B (whatever the library does with the queue), and a third
+// command C must then get its own value too.
+func TestUDPStaleBehindReply(t *testing.T) {
+	names := []string{"GetSystemGUID", "GetDeviceID", "GetChannelAuthenticationCapabilities", "GetChassisStatus"}
+	type ucase struct {
+		a, b, c   string
+		inSession bool
+	}
+	var cases []ucase
+	for i, a := range names {
+		for j, b := range names {
+			if i != j {
+				cases = append(cases, ucase{a, b, names[(j+1+(i+j)%2)%len(names)], (i+j)%2 == 0})
+			}
+		}
+	}
+	var wg sync.WaitGroup
+	var mu sync.Mutex
+	var firstMsg string
+	for i, c := range cases {
+		i, c := i, c
+		if c.c == c.a || c.c == c.b {
+			for _, n := range names {
+				if n != c.a && n != c.b {
+					c.c = n
+				}
+			}
+		}
+		wg.Add(1)
+		go func() {
+			defer wg.Done()
+			msg := func() string {
+				cr := hx.Creds{User: "admin", Password: []byte("pw"), Priv: 4, Suite: hx.Suites9()[(i+int(ev.Seed))%9], Seed: uint64(ev.Seed)*19 + uint64(i)}
+				b := simbmc.New(cr.Seed)
+				cr.Install(b)
+				ca, cb, cc := prepare(hx.CatalogueEntry(c.a), b, i*3+int(ev.Seed)), prepare(hx.CatalogueEntry(c.b), b, i*5+1), prepare(hx.CatalogueEntry(c.c), b, i*7+2)
+				srv, err := udpnet.Listen(b)
+				if err != nil {
+					return ""
+				}
+				defer srv.Close()
+				tr, err := bmc.DialV2(srv.Addr(), bmc.WithTimeout(300*time.Millisecond))
+				if err != nil {
+					return ""
+				}
+				defer tr.Close()
+				ctx, cancel := context.WithTimeout(context.Background(), 20*time.Second)
+				defer cancel()
+				var cn conn = tr
+				if c.inSession {
+					s, err := tr.NewV2Session(ctx, cr.Opts())
+					if err != nil {
+						return ""
+					}
+					cn = s
+				}
+				var replyA []byte
+				stage := 0
+				srv.Arm(func(rx *simbmc.Rx) []udpnet.Reply {
+					var out []udpnet.Reply
+					for _, o := range rx.Replies {
+						out = append(out, udpnet.Reply{Data: o.Data})
+					}
+					if rx.Msg == nil || rx.Msg.IsResponse() || len(out) == 0 {
+						return out
+					}
+					switch stage {
+					case 0:
+						replyA = append([]byte(nil), out[0].Data...)
+					case 1:
+						out = append(out, udpnet.Reply{Data: replyA}) // stale duplicate right behind B's reply
+					}
+					return out
+				})
+				where := fmt.Sprintf("UDP inSession=%v: %s, then %s answered with its reply followed by a duplicate of the %s reply, then %s", c.inSession, ca.Name, cb.Name, ca.Name, cc.Name)
+				if _, err := cn.SendCommand(ctx, ca.Cmd); err != nil {
+					return ""
+				}
+				srv.Lock()
+				stage = 1
+				srv.Unlock()
+				code, err := cn.SendCommand(ctx, cb.Cmd)
+				srv.Lock()
+				stage = 2
+				srv.Unlock()
+				if err == nil && code == 0 {
+					if cerr := cb.Check(); cerr != nil {
+						return fmt.Sprintf("%s: the value returned for %s is not the BMC's: %v", where, cb.Name, cerr)
+					}
+				}
+				code, err = cn.SendCommand(ctx, cc.Cmd)
+				if err == nil && code == 0 {
+					if cerr := cc.Check(); cerr != nil {
+						return fmt.Sprintf("%s: the value returned for the following %s is not the BMC's: %v", where, cc.Name, cerr)
+					}
+				}
+				return ""
+			}()
+			mu.Lock()
+			defer mu.Unlock()
+			ev.Eval()
+			ev.NonTrivial(fmt.Sprintf("udp-stale|%s|%s|%v", c.a, c.b, c.inSession))
+			ev.Label("udp:stale-reply-behind-the-right-one")
+			if msg != "" && firstMsg == "" {
+				firstMsg = msg
+				ev.Violation("TestUDPStaleBehindReply", map[string]any{"a": c.a, "b": c.b, "c": c.c, "inSession": c.inSession}, msg)
+			}
+		}()
+	}
+	wg.Wait()
+	if firstMsg != "" {
+		t.Fatalf("%s", firstMsg)
+	}
+}
+
 func TestCoverage(t *testing.T) {
-	need := []string{"pairs-complete", "neighbour-operations-complete", "high-level-methods-complete", "high-level:ChassisControl", "high-level:Close"}
+	need := []string{"pairs-complete", "neighbour-operations-complete", "high-level-methods-complete", "high-level:ChassisControl", "high-level:Close", "udp:stale-reply-behind-the-right-one"}
 	for _, f := range faults {
 		need = append(need, "foreign-head:"+f+":inSession=true", "foreign-head:"+f+":inSession=false")
 	}
